@@ -16,6 +16,9 @@ ASSUMPTIONS = [
 ]
 RULE = ('boundary streams (every CompactSize / push / script-number form change), exhaustive small ranges, '
         'exhaustive command lists over a fixed alphabet up to a length bound, seeded random streams; '
+        'argument forms of the helpers (text: ASCII / Latin-1 / beyond Latin-1 with lengths across 252/253 and 65535/65536 counted in '
+        'bytes and in characters; bytearray / memoryview / list / hex text; bool, int subclass, float, Decimal, Fraction, decimal text) '
+        'judged against the documented normalisation (spec_norm) and put to the model in normalised form; '
         'a case is non-trivial when the implementation returns a value (not an error); distinct by request')
 
 
